@@ -76,6 +76,10 @@ func checkC14(w *World, c *Check) {
 		}
 	}
 	cases = append(cases, qcase{0, 1, 1}, qcase{1, 2, 1}, qcase{1, 2, 2})
+	if c.Tier == "thorough" {
+		// deeper: three keys, and two against three
+		cases = append(cases, qcase{3, 3, 1}, qcase{3, 3, 2}, qcase{2, 3, 1}, qcase{2, 3, 2})
+	}
 	for _, qc := range cases {
 		{
 			nk, nkB, nv := qc.nk, qc.nkB, qc.nv
@@ -114,6 +118,9 @@ func checkC14(w *World, c *Check) {
 				rba := ex.Call(st, slowFn, []Value{b, a, cs}, nil).(*Term)
 				common := append(append([]*Term{ex.NoPanic()}, distinctKeys...), ex.assumes...)
 				bound := 2
+					if nkB > 2 {
+						bound = 3
+					}
 				wit := []Witness{{"rab", rab}, {"rba", rba}, {"errA", Eq(App("urlParseErr", SErr, a), ErrNil)}, {"errB", Eq(App("urlParseErr", SErr, b), ErrNil)},
 					{"aEmpty", Eq(a, StrLit(""))}, {"bEmpty", Eq(b, StrLit(""))}, {"cs", cs},
 					{"schemeEq", EqFold(urlComp(a, "Scheme", SStr), urlComp(b, "Scheme", SStr))}, {"hostEq", EqFold(urlComp(a, "Host", SStr), urlComp(b, "Host", SStr))},
